@@ -43,44 +43,62 @@ def eNs (E : Int) : Int := if E > I64_MAX then I64_MAX else E
 /-- tolerance `τ = E ⊗ (B-1)` -/
 def tauNs (E B : Int) : Int := satMul (eNs E) (B - 1)
 
+/-- `stored_tat.max(min_tat)`, or `min_tat` for a key that is not there -/
+def effTat (minTat : Int) (tatVal : Option Int) : Int :=
+  match tatVal with
+  | some stored => max stored minTat
+  | none => minTat
+
+/-- everything `rate_limit` computes from what `get` returned, before touching the store again -/
+structure Decision where
+  allowed : Bool
+  /-- the store is written only for an admitted request of positive quantity -/
+  write : Bool
+  tat : Int
+  newTat : Int
+  ttl : Int
+  outcome : Outcome
+deriving Repr, DecidableEq
+
+def decision (E : Int) (r : Req) (tatVal : Option Int) : Decision :=
+  let e := eNs E
+  let tau := tauNs E r.burst
+  let now := r.now
+  let minTat := satSub now e
+  let tat := effTat minTat tatVal
+  let increment := satMul e r.qty
+  let newTat := satAdd tat increment
+  let allowAt := satSub newTat tau
+  let allowed := decide (now ≥ allowAt)
+  let pad := max tau e
+  let ttl := max (satAdd (satSub newTat now) pad) 0
+  let cur := if allowed then newTat else tat
+  let burstLimit := satAdd now tau
+  let room := satSub burstLimit cur
+  let remaining := if e > 0 then max (Int.tdiv room e) 0 else 0
+  let reset := max (satAdd (satSub cur now) pad) 0
+  let retry := if allowed then 0 else max (satSub allowAt now) 0
+  { allowed := allowed, write := allowed && decide (r.qty > 0), tat := tat, newTat := newTat, ttl := ttl,
+    outcome := .ok allowed r.burst remaining reset retry }
+
 /-- body of the retry loop; `fuel` = retries left (MAX_RETRIES = 10). -/
 def rlLoop {σ : Type} (S : StoreOps σ) : Nat → σ → Int → Req → List StoreOp → σ × Outcome × List StoreOp
   | 0, s, _, _, tr => (s, .errInternal, tr)
   | fuel + 1, s, E, r, tr =>
-    let e := eNs E
-    let tau := tauNs E r.burst
-    let now := r.now
-    let tatVal := S.get s r.key now
-    let tr := tr ++ [StoreOp.get r.key now tatVal]
-    let minTat := satSub now e
-    let tat := match tatVal with
-      | some stored => max stored minTat
-      | none => minTat
-    let increment := satMul e r.qty
-    let newTat := satAdd tat increment
-    let allowAt := satSub newTat tau
-    let allowed := decide (now ≥ allowAt)
-    let pad := max tau e
-    let finish (s : σ) (tr : List StoreOp) : σ × Outcome × List StoreOp :=
-      let cur := if allowed then newTat else tat
-      let burstLimit := satAdd now tau
-      let room := satSub burstLimit cur
-      let remaining := if e > 0 then max (Int.tdiv room e) 0 else 0
-      let reset := max (satAdd (satSub cur now) pad) 0
-      let retry := if allowed then 0 else max (satSub allowAt now) 0
-      (s, .ok allowed r.burst remaining reset retry, tr)
-    if allowed ∧ r.qty > 0 then
-      let ttl := max (satAdd (satSub newTat now) pad) 0
+    let tatVal := S.get s r.key r.now
+    let tr := tr ++ [StoreOp.get r.key r.now tatVal]
+    let d := decision E r tatVal
+    if d.write then
       match tatVal with
       | some old =>
-        let (s', okw) := S.cas s r.key old newTat ttl now
-        let tr := tr ++ [StoreOp.cas r.key old newTat ttl now okw]
-        if okw then finish s' tr else rlLoop S fuel s' E r tr
+        let w := S.cas s r.key old d.newTat d.ttl r.now
+        let tr := tr ++ [StoreOp.cas r.key old d.newTat d.ttl r.now w.2]
+        if w.2 then (w.1, d.outcome, tr) else rlLoop S fuel w.1 E r tr
       | none =>
-        let (s', okw) := S.setnx s r.key newTat ttl now
-        let tr := tr ++ [StoreOp.setnx r.key newTat ttl now okw]
-        if okw then finish s' tr else rlLoop S fuel s' E r tr
-    else finish s tr
+        let w := S.setnx s r.key d.newTat d.ttl r.now
+        let tr := tr ++ [StoreOp.setnx r.key d.newTat d.ttl r.now w.2]
+        if w.2 then (w.1, d.outcome, tr) else rlLoop S fuel w.1 E r tr
+    else (s, d.outcome, tr)
 
 def MAX_RETRIES : Nat := Gen.MAX_RETRIES
 
@@ -100,5 +118,12 @@ def runE {σ : Type} (S : StoreOps σ) (ei : Int → Int → Int) : σ → List 
   | s, r :: rs =>
     let (s', o, _) := rateLimitE S s (ei r.count r.period) r
     o :: runE S ei s' rs
+
+/-- run a whole history, keeping each request next to its outcome -/
+def runTagged {σ : Type} (S : StoreOps σ) (ei : Int → Int → Int) : σ → List Req → List (Req × Outcome)
+  | _, [] => []
+  | s, r :: rs =>
+    let res := rateLimitE S s (ei r.count r.period) r
+    (r, res.2.1) :: runTagged S ei res.1 rs
 
 end TcVerif
